@@ -1388,6 +1388,18 @@ class Interp:
             if len(vals) == 1 and not terms_of(vals[0]):
                 return vals[0]
             raise Unproven('cannot evaluate local constant %s' % c['uneval_def'])
+        if c.get('uneval_def') and k == 'prim' and 'bits' not in c:
+            # a constant the compiler has not evaluated (an associated const of a generic impl: `Self::PLAIN =
+            # !needs_drop::<(K, V)>()`): its value depends on the instantiation -- a fixed but unknown value, so
+            # BOTH arms of a branch on it are code that runs for some K, V
+            if ty['name'] == 'bool':
+                return ('boolu', ('const', val))
+            if ty['name'] in self.INT_BITS:
+                cache = self.__dict__.setdefault('_uneval_terms', {})
+                if val not in cache:
+                    cache[val] = fresh('k')
+                st.zone.touch(cache[val])
+                return I(cache[val])
         if k == 'prim':
             if ty['name'] == 'bool':
                 return TRUE if val.endswith('true') else FALSE
